@@ -7,6 +7,7 @@ import (
 	"crypto/sha256"
 	"fmt"
 	"strings"
+	"sync"
 )
 
 // Divergence is raised (as a panic value) when a replayed prefix does not fit
@@ -29,7 +30,10 @@ type Chooser struct {
 	ex     *Explorer
 	Cut    bool // set when a visited state was reached beyond the prefix
 	used   int
+
+	Worker int // index of the explorer worker running this execution
 }
+
 
 func (c *Chooser) Pos() int { return len(c.Points) }
 
@@ -69,10 +73,9 @@ func (c *Chooser) Seen(key func() string) bool {
 	if len(c.Points) < len(c.prefix) {
 		return false
 	}
-	if len(c.prefix) > 0 && len(c.Points) == 0 {
-		return false
-	}
 	k := hash(key())
+	c.ex.mu.Lock()
+	defer c.ex.mu.Unlock()
 	if used, ok := c.ex.visited[k]; ok && used <= c.used {
 		c.ex.Stats.Cut++
 		c.Cut = true
@@ -124,69 +127,127 @@ type Explorer struct {
 	Prune   bool // state-key pruning
 	MaxExec int64
 	Stats   Stats
-	visited map[key]int
 	Stop    func() bool // polled between executions; true = stop, not exhaustive
+	// Workers > 1 runs that many executions concurrently (each on its own instance
+	// of the system under test) over one shared work stack and one shared visited
+	// set. The set of states expanded is the same as with one worker; only the
+	// order, and therefore which run is the one that is cut at a state, varies.
+	Workers int
+
+	mu      sync.Mutex
+	visited map[key]int
 }
 
 func NewChooser(prefix []int) *Chooser { return &Chooser{prefix: prefix} }
 
 // Explore runs `run` for every choice sequence within the bound. `run` must be
-// deterministic given the chooser. It returns false to abort the search (e.g.
-// after a violation when only the first one is wanted).
+// deterministic given the chooser (and safe for concurrent use if Workers > 1).
+// It returns false to abort the search.
 func (e *Explorer) Explore(run func(*Chooser) bool) {
 	if e.visited == nil {
 		e.visited = map[key]int{}
 	}
+	nw := e.Workers
+	if nw < 1 {
+		nw = 1
+	}
 	stack := [][]int{{}}
-	for len(stack) > 0 {
-		if e.MaxExec > 0 && e.Stats.Executions >= e.MaxExec {
-			e.Stats.Capped = true
-			return
-		}
-		if e.Stop != nil && e.Stop() {
-			e.Stats.Capped = true
-			return
-		}
-		prefix := stack[len(stack)-1]
-		stack = stack[:len(stack)-1]
-		c := &Chooser{prefix: prefix, ex: e}
-		e.Stats.Executions++
-		cont := run(c)
-		if len(c.Points) < len(prefix) {
-			panic(Divergence{fmt.Sprintf("execution ended at point %d inside a prefix of length %d", len(c.Points), len(prefix))})
-		}
-		if len(c.Points) > e.Stats.MaxDepth {
-			e.Stats.MaxDepth = len(c.Points)
-		}
-		if len(prefix) == 0 {
-			e.Stats.Transitions += int64(len(c.Points))
-		} else {
-			e.Stats.Transitions += int64(len(c.Points) - len(prefix) + 1)
-		}
-		if !cont {
-			return
-		}
-		used := 0
-		for i, p := range c.Points {
-			if i >= len(prefix) {
-				// push alternatives; deepest last so that they are popped first
-				for alt := p.N - 1; alt >= 1; alt-- {
-					cost := 0
-					if p.Costs != nil {
-						cost = p.Costs[alt]
+	busy := 0
+	abort := false
+	cond := sync.NewCond(&e.mu)
+	var wg sync.WaitGroup
+	var panicVal any
+	for wi := 0; wi < nw; wi++ {
+		wg.Add(1)
+		go func(wi int) {
+			defer wg.Done()
+			defer func() {
+				if r := recover(); r != nil {
+					e.mu.Lock()
+					if panicVal == nil {
+						panicVal = r
 					}
-					if e.Bound >= 0 && used+cost > e.Bound {
-						continue
-					}
-					np := make([]int, i+1)
-					copy(np, c.Choices()[:i])
-					np[i] = alt
-					stack = append(stack, np)
+					abort = true
+					cond.Broadcast()
+					e.mu.Unlock()
 				}
+			}()
+			for {
+				e.mu.Lock()
+				for len(stack) == 0 && busy > 0 && !abort {
+					cond.Wait()
+				}
+				if abort || len(stack) == 0 {
+					cond.Broadcast()
+					e.mu.Unlock()
+					return
+				}
+				if (e.MaxExec > 0 && e.Stats.Executions >= e.MaxExec) || (e.Stop != nil && e.Stop()) {
+					e.Stats.Capped = true
+					abort = true
+					cond.Broadcast()
+					e.mu.Unlock()
+					return
+				}
+				prefix := stack[len(stack)-1]
+				stack = stack[:len(stack)-1]
+				busy++
+				e.Stats.Executions++
+				e.mu.Unlock()
+
+				c := &Chooser{prefix: prefix, ex: e, Worker: wi}
+				cont := run(c)
+
+				e.mu.Lock()
+				busy--
+				if len(c.Points) < len(prefix) {
+					e.mu.Unlock()
+					panic(Divergence{fmt.Sprintf("execution ended at point %d inside a prefix of length %d", len(c.Points), len(prefix))})
+				}
+				if len(c.Points) > e.Stats.MaxDepth {
+					e.Stats.MaxDepth = len(c.Points)
+				}
+				if len(prefix) == 0 {
+					e.Stats.Transitions += int64(len(c.Points))
+				} else {
+					e.Stats.Transitions += int64(len(c.Points) - len(prefix) + 1)
+				}
+				if !cont {
+					abort = true
+					cond.Broadcast()
+					e.mu.Unlock()
+					return
+				}
+				used := 0
+				choices := c.Choices()
+				for i, p := range c.Points {
+					if i >= len(prefix) {
+						// push alternatives; deepest last so that they are popped first
+						for alt := p.N - 1; alt >= 1; alt-- {
+							cost := 0
+							if p.Costs != nil {
+								cost = p.Costs[alt]
+							}
+							if e.Bound >= 0 && used+cost > e.Bound {
+								continue
+							}
+							np := make([]int, i+1)
+							copy(np, choices[:i])
+							np[i] = alt
+							stack = append(stack, np)
+						}
+					}
+					if p.Costs != nil {
+						used += p.Costs[p.Choice]
+					}
+				}
+				cond.Broadcast()
+				e.mu.Unlock()
 			}
-			if p.Costs != nil {
-				used += p.Costs[p.Choice]
-			}
-		}
+		}(wi)
+	}
+	wg.Wait()
+	if panicVal != nil {
+		panic(panicVal)
 	}
 }
